@@ -34,7 +34,7 @@ from octave_mcp.core.ast_nodes import (
 from octave_mcp.core.emitter import emit
 from octave_mcp.core.gbnf_compiler import GBNFCompiler
 from octave_mcp.core.hydrator import resolve_hermetic_standard
-from octave_mcp.core.lexer import LexerError, tokenize
+from octave_mcp.core.lexer import FENCE_PATTERN, LexerError, tokenize
 from octave_mcp.core.parser import ParserError, _strip_yaml_frontmatter, parse, parse_with_warnings
 from octave_mcp.core.repair import repair
 from octave_mcp.core.repair_log import LiteralZoneRepairLog
@@ -183,21 +183,28 @@ class WriteTool(BaseTool):
         protected: list[tuple[int, int]] = []
 
         # Find literal zone boundaries (``` fences)
+        # Same rule as the lexer: a zone opened with N backticks is closed only by a line of
+        # exactly N backticks; shorter runs (and fence-looking lines with a tag) inside it are
+        # content. Toggling on every line that starts with ``` ended the protection early for
+        # a ```` zone that contains a ``` line, and the rest of the zone was "repaired".
         in_fence = False
         fence_start = 0
+        fence_marker = ""
         offset = 0
         for line in content.split("\n"):
             line_start = offset
             offset += len(line) + 1  # +1 for the newline separator
-            stripped = line.strip()
-            if stripped.startswith("```"):
-                if not in_fence:
-                    in_fence = True
-                    fence_start = line_start
-                else:
-                    in_fence = False
-                    fence_end = line_start + len(line)
-                    protected.append((fence_start, fence_end))
+            fence_match = FENCE_PATTERN.match(line)
+            if fence_match is None:
+                continue
+            if not in_fence:
+                in_fence = True
+                fence_start = line_start
+                fence_marker = fence_match.group(3)
+            elif fence_match.group(3) == fence_marker and not (fence_match.group(4) or "").strip():
+                in_fence = False
+                fence_end = line_start + len(line)
+                protected.append((fence_start, fence_end))
 
         # If fence was never closed, protect from fence_start to end
         if in_fence:
